@@ -375,6 +375,13 @@ SendToSubscriber:
 			s.logger.Info("Pub/Sub closed, discarding msg", logFields)
 			return
 		}
+		select {
+		case <-s.closing:
+			// the subscription is being closed: a sender that got the lock before Close must not deliver anything more
+			s.logger.Trace("Closing, message discarded", logFields)
+			return
+		default:
+		}
 
 		verifhook.At("gochannel.send.before_chan", msg.UUID, s.uuid)
 		select {
